@@ -774,7 +774,84 @@ func cmdRacePass(args []string) int {
 			fmt.Printf("racepass pair %s||%s done\n", bs[i].name, bs[j].name)
 		}
 	}
-	fmt.Printf("racepass complete: %d pairs x %d repetitions x 3 goroutines\n", pairs, reps)
+	// phase 2: LARGE shared tensors (the scheduler scenarios use 2x2 tensors; code that only
+	// switches to worker goroutines, blocks or scratch buffers above a size is outside them).
+	// Shapes: a few defaults and every integer constant of the library's current source as an
+	// element count. Every goroutine must obtain, bit for bit, what the same calls return when
+	// they are made one after the other.
+	nLarge := 0
+	for _, s := range bigShapes(false) {
+		if ref.Size(s) > 1<<17 {
+			continue
+		}
+		x := rt.Make(enum.Generic(s, 991, 0.5, 3, true), false)
+		y := rt.Make(enum.Generic(s, 992, 0.5, 3, true), false)
+		eval := func() []float64 {
+			var out []float64
+			out = append(out, x.Sum(), x.Avg(), x.Var(), x.Std(), x.Max(), x.Min(), x.Mean())
+			if len(s) >= 1 {
+				if t, err := x.SumAlong(0); err == nil {
+					out = append(out, t.Sum())
+				}
+				if t, err := x.MaxAlong(len(s) - 1); err == nil {
+					out = append(out, t.Sum())
+				}
+			}
+			if t, err := x.Add(y); err == nil {
+				out = append(out, t.Sum())
+			}
+			out = append(out, x.Scale(1.5).Sum(), x.Tanh().Sum())
+			if t, err := x.Dot(y); err == nil {
+				out = append(out, t.Sum())
+			}
+			if len(s) >= 2 {
+				if t, err := x.Transpose(); err == nil {
+					out = append(out, t.Sum())
+				}
+			}
+			return out
+		}
+		ref1 := eval()
+		ref2 := eval()
+		for i := range ref1 {
+			if math.Float64bits(ref1[i]) != math.Float64bits(ref2[i]) {
+				fmt.Printf("racepass NONDETERMINISTIC: shape %v: the same call made twice by ONE goroutine returns %v and %v (result %d of the evaluation list)\n", s, ref1[i], ref2[i], i)
+				return 4
+			}
+		}
+		var wg sync.WaitGroup
+		bad := make([]string, 3)
+		for g := 0; g < 3; g++ {
+			wg.Add(1)
+			go func(g int) {
+				defer wg.Done()
+				defer func() {
+					if p := recover(); p != nil {
+						bad[g] = fmt.Sprintf("panic: %v", p)
+					}
+				}()
+				for r := 0; r < 3; r++ {
+					got := eval()
+					for i := range ref1 {
+						if math.Float64bits(got[i]) != math.Float64bits(ref1[i]) {
+							bad[g] = fmt.Sprintf("result %d of the evaluation list is %v, sequentially %v", i, got[i], ref1[i])
+							return
+						}
+					}
+				}
+			}(g)
+		}
+		wg.Wait()
+		for g := range bad {
+			if bad[g] != "" {
+				fmt.Printf("racepass NONDETERMINISTIC: shape %v, goroutine %d of 3 evaluating reducers / element-wise operations on the same shared tensors: %s\n", s, g, bad[g])
+				return 4
+			}
+		}
+		nLarge++
+	}
+	fmt.Printf("racepass large: %d shapes done\n", nLarge)
+	fmt.Printf("racepass complete: %d pairs x %d repetitions x 3 goroutines; %d large shared tensors x 3 goroutines x 3 repetitions\n", pairs, reps, nLarge)
 	return 0
 }
 
@@ -806,6 +883,21 @@ func c20Post(tier string, seed int64, m *core.Part) {
 		path := filepath.Join(dir, "race_pass_hang.txt")
 		os.WriteFile(path, out, 0o644)
 		m.Violations = append(m.Violations, core.ViolationRec{CaseID: "racepass", Detail: fmt.Sprintf("the free-running pass (thread bodies on real goroutines) did not finish: goroutines block each other (deadlock). %s", hangLine(string(out))), Replay: path})
+		return
+	}
+	if strings.Contains(string(out), "racepass NONDETERMINISTIC") {
+		dir := filepath.Join(core.VerifDir, "replays", "C20")
+		os.MkdirAll(dir, 0o755)
+		path := filepath.Join(dir, "race_pass_nondeterministic.txt")
+		os.WriteFile(path, out, 0o644)
+		line := ""
+		for _, l := range strings.Split(string(out), "\n") {
+			if strings.HasPrefix(l, "racepass NONDETERMINISTIC") {
+				line = l
+				break
+			}
+		}
+		m.Violations = append(m.Violations, core.ViolationRec{CaseID: "racepass", Detail: "free-running pass on large shared tensors: a goroutine did not obtain the result the same computation gives sequentially: " + line, Replay: path})
 		return
 	}
 	if err != nil || !strings.Contains(string(out), "racepass complete") {
